@@ -75,10 +75,17 @@ class Lock:
 # --------------------------------------------------------------------------------------------
 # builds
 
+# Run/ entry points shared by several properties
+RUN_OF = {"C04": "RunCal", "C05": "RunCal", "C06": "RunCal"}
+EXTRA_RUN_TARGETS = []
+
+
 def coq_targets_for(prop):
     t = ["theories/Props/%s.vo" % prop]
     if os.path.exists(os.path.join(COQ, "theories", "Run", "Run%s.v" % prop)):
         t.append("theories/Run/Run%s.vo" % prop)
+    if prop in RUN_OF:
+        t.append("theories/Run/%s.vo" % RUN_OF[prop])
     return t
 
 
